@@ -127,6 +127,32 @@ func (ex *Exec) modArrayNames(fc *FuncContract, c *ssa.CallCommon, e CExpr) (map
 			out["LockState"] = ArraySort(SRef, SInt)
 			return out, true
 		}
+		if n.Fn == "elems" && len(n.Args) == 1 {
+			if t := ex.staticTypeOf(fc, c, n.Args[0]); t != nil {
+				if sl, ok := t.Underlying().(*types.Slice); ok {
+					an, as := w.ElemArray(sl.Elem())
+					out[an] = as
+					return out, true
+				}
+			}
+		}
+		if n.Fn == "mapof" && len(n.Args) == 1 {
+			if t := ex.staticTypeOf(fc, c, n.Args[0]); t != nil {
+				if mt, ok := t.Underlying().(*types.Map); ok {
+					pn, ps, vn, vs := w.MapArrays(mt)
+					out[pn] = ps
+					out[vn] = vs
+					return out, true
+				}
+			}
+		}
+		if n.Fn == "deref" && len(n.Args) == 1 {
+			if t := ex.staticTypeOf(fc, c, n.Args[0]); t != nil {
+				li := &loopInfo{mods: out}
+				ex.typeMods(deref(t), li)
+				return out, true
+			}
+		}
 	case *CIdent:
 		if g, ok := w.CS.Ghosts[n.Name]; ok && len(g.Params) == 0 {
 			out["G_"+n.Name] = g.Result
@@ -153,6 +179,31 @@ func (ex *Exec) modArrayNames(fc *FuncContract, c *ssa.CallCommon, e CExpr) (map
 func (ex *Exec) staticTypeOf(fc *FuncContract, c *ssa.CallCommon, e CExpr) types.Type {
 	id, ok := e.(*CIdent)
 	if !ok {
+		if call, ok := e.(*CCall); ok && call.Fn == "as" && len(call.Args) == 2 {
+			if sl, ok := call.Args[1].(*CStr); ok {
+				name := strings.TrimPrefix(sl.Val, "*")
+				var t types.Type
+				if pk := ex.pkgOf(fc, nil); pk != nil && !strings.Contains(name, ".") {
+					if obj := pk.Pkg.Scope().Lookup(name); obj != nil {
+						t = obj.Type()
+						if strings.HasPrefix(sl.Val, "*") {
+							t = types.NewPointer(t)
+						}
+					}
+				}
+				if t == nil {
+					t = ex.lookupTypeByString(sl.Val)
+				}
+				return t
+			}
+			return nil
+		}
+		if call, ok := e.(*CCall); ok && call.Fn == "addr" && len(call.Args) == 1 {
+			if t := ex.staticTypeOf(fc, c, call.Args[0]); t != nil {
+				return types.NewPointer(t)
+			}
+			return nil
+		}
 		if sel, ok := e.(*CSel); ok {
 			bt := ex.staticTypeOf(fc, c, sel.X)
 			if bt == nil {
@@ -470,6 +521,12 @@ func (ex *Exec) applyCall(st *State, fr *Frame, c *ssa.CallCommon, fc *FuncContr
 }
 
 func (ex *Exec) pkgOf(fc *FuncContract, callee *ssa.Function) *ssa.Package {
+	if fc != nil && fc.Kind == "extern" && fc.PkgPath != "" {
+		// an extern written in a package's contract file speaks that package's vocabulary
+		if sp, ok := ex.w.SSAPkgs[fc.PkgPath]; ok {
+			return sp
+		}
+	}
 	if callee != nil && callee.Pkg != nil {
 		return callee.Pkg
 	}
@@ -558,6 +615,25 @@ func (ex *Exec) havocLoc(st *State, env *CEnv, old *Heap, e CExpr) error {
 				return nil
 			}
 			return cerr("modifies bytes(%s): not a slice or array pointer", v.T.S)
+		case "elems": // elems(s): the elements s[0..len(s)) of a non-byte slice
+			v, err := oenv.Eval(n.Args[0])
+			if err != nil {
+				return err
+			}
+			if v.T.Sort != SSlice || v.GoT == nil {
+				return cerr("modifies elems(): not a typed slice")
+			}
+			elem := v.GoT.Underlying().(*types.Slice).Elem()
+			an, as := w.ElemArray(elem)
+			arr := w.heapGet(st.heap, an, as)
+			_, inner, _ := as.IsArray()
+			na := w.Fresh("elems!havoc", inner)
+			oldA := Select(arr, SBase(v.T))
+			// frame: indices outside [off, off+len) keep their values
+			st.assume(Term{fmt.Sprintf("(forall ((i!q Int)) (! (=> (or (< i!q %s) (>= i!q (+ %s %s))) (= (select %s i!q) (select %s i!q))) :pattern ((select %s i!q))))",
+				SOff(v.T).S, SOff(v.T).S, SLen(v.T).S, na.S, oldA.S, na.S), SBool})
+			w.heapSet(st.heap, an, Store(arr, SBase(v.T), na))
+			return nil
 		case "lockstate":
 			v, err := oenv.Eval(n.Args[0])
 			if err != nil {
